@@ -26,7 +26,8 @@ func finalShutdown(sc *simScenario, hist []simEvent) []simViolation {
 			continue
 		}
 		if err := n.stop(); err != nil {
-			out = append(out, simViolation{Oracle: "alive", Key: "shutdown-does-not-finish", Desc: "node " + itoa(int(n.id)) + ": " + err.Error()})
+			out = append(out, simViolation{Oracle: "alive", Key: "shutdown-does-not-finish", Desc: "node " + itoa(int(n.id)) + ": " + err.Error(),
+				Final: "shutdown", Prefix: append([]simEvent{}, hist...)})
 			return out
 		}
 		n.abandon()
@@ -46,6 +47,9 @@ func finalShutdown(sc *simScenario, hist []simEvent) []simViolation {
 		if v.Oracle == "alive" {
 			out = append(out, v)
 		}
+	}
+	for i := range out {
+		out[i].Final, out[i].Prefix = "shutdown", append([]simEvent{}, hist...)
 	}
 	return out
 }
